@@ -191,6 +191,32 @@ func (p c15) Run(par *fw.Parent) *fw.Result {
 		}
 		jobs = append(jobs, histJob{ID: fmt.Sprintf("repeat-%d", i), Kind: "repeat", Reqs: seq, Retain: true})
 	}
+	// determinism under repetition: inputs with many equally cheap encodings (Aztec mode
+	// ties, Code 128 set choices, PDF417 sub-mode choices), each encoded 25 times
+	for k := 0; k < 6; k++ {
+		var seq []Req
+		for j := 0; j < 12; j++ {
+			var q Req
+			switch (k + j) % 4 {
+			case 0:
+				q = Req{Fam: "aztec", S: azWalk(r, 2+r.Intn(14), 1), I: []int64{33, 0}, Scheme: -1}
+			case 1:
+				q = Req{Fam: "aztec", S: []byte(pick(r, []string{"a\r", "\r!", ",A1@A,B1 ", "j q 5la6StGw1", "A. b, C: d\r\n", "1,2.3 4"})), I: []int64{23, 0}, Scheme: -1}
+			case 2:
+				q = Req{Fam: "pdf417", S: pdfTextWalk(r, 4+r.Intn(20)), I: []int64{int64(r.Intn(9))}, Scheme: -1}
+			default:
+				rs := make([]rune, 2+r.Intn(12))
+				for i := range rs {
+					rs[i] = c128Rep(r, r.Intn(c128Classes))
+				}
+				q = Req{Fam: "code128", S: []byte(string(rs)), Scheme: -1}
+			}
+			for rep := 0; rep < 25; rep++ {
+				seq = append(seq, q)
+			}
+		}
+		jobs = append(jobs, histJob{ID: fmt.Sprintf("repeat-ties-%d", k), Kind: "repeat", Reqs: seq})
+	}
 	// (c) every ordered pair of RS degrees, each in a fresh process
 	pairs := func(idx []int, label string) {
 		for _, a := range idx {
